@@ -3,7 +3,8 @@
 domain : buses of 2-12 simulated terminals, some with pre-assigned station
          addresses inside and outside a narrowed configured range (collisions
          with the master's random choice are likely, free addresses always
-         exist); the master's random numbers are drawn from the case;
+         exist - in a quarter of the cases exactly as many as the scan needs);
+         the master's random numbers are drawn from the case;
          scan_serial_numbers and Terminal.initialize(relative=...) run
          concurrently over the real send loop with generated frame latencies.
 oracle : every station-address write lies in the configured range, no address
@@ -66,6 +67,9 @@ def strategy(tier):
         "dup_pre": st.sampled_from([False, False, False, True]),
         "send_error_at": st.none() | st.none() | st.none()
         | st.integers(0, 30),
+        # the configured range has exactly as many addresses as the scan
+        # needs (pre-assigned addresses then lie outside the range)
+        "tight": st.sampled_from([False, False, False, True]),
     })
 
 
@@ -85,6 +89,11 @@ class Watched(simbus.TerminalModel):
 
 def run_case(case):
     pre = list(case["terms"])
+    tight = bool(case.get("tight")) and pre.count(0) >= 2
+    if tight:
+        pre = [a if not LO <= a <= LO + 60 else a - 500 for a in pre]
+        # (one scan: two concurrent ones would need twice the addresses)
+        case = dict(case, mode="scan", send_error_at=None, dup_pre=False)
     # make pre-assigned addresses distinct
     seen = set()
     dup_pre = bool(case.get("dup_pre"))
@@ -98,6 +107,8 @@ def run_case(case):
     dup_pre = dup_pre and len([a for a in pre if a]) != len(seen)
     n = len(pre)
     hi = LO + max(case["width"], 3 * n + len(seen) + 5)
+    if tight:
+        hi = LO + pre.count(0) - 1
     world = {"terms": [], "writes": []}
     for i, a in enumerate(pre):
         t = Watched(i, world, station=a)
@@ -174,7 +185,8 @@ def run_case(case):
 
     classes = [f"n={n}", f"mode={case['mode']}"] + (
         ["send-error"] if case.get("send_error_at") is not None else []) + (
-        ["coinciding-leftovers"] if dup_pre else []) + [
+        ["coinciding-leftovers"] if dup_pre else []) + (
+        ["tight-range"] if tight else []) + [
                f"pre={sum(1 for a in pre if a)}"]
 
     def fail(what):
